@@ -137,7 +137,7 @@ def encValue (tag : Nat) (name : String) : VSpec → AVal → TItem
 def okValue (name : String) : VSpec → AVal → Bool
   | .text, .text s => okText s
   | .int, .int n => okInt (wireInt name n)
-  | .interval, .int n => decide (0 ≤ n) && decide (n < 4294967296)
+  | .interval, .int n => decide (0 ≤ n) && decide (n < 4294967296) && name != "Cryptographic Usage Mask"
   | .bool, .bool _ => true
   | .date, .date n => okDate n
   | .enum ms, .enum n => ms.contains n
@@ -354,7 +354,7 @@ def okPayload (v : Nat) : Payload → Bool
   | .locate mx off as => okOpt okInt mx && okOpt okInt off && (if v < 20 then as.all okAttr1x else as.all okAttr20)
   | .get u f _ w => okOpt okText u && okOpt E.keyFormatType.contains f && okOpt okWrap w
   | .getAttributes u ns =>
-      okOpt okText u && ns.all okText &&
+      okOpt okText u && ns.eraseDups.all okText &&
       (v < 20 || ns.eraseDups.all (fun n => match tagOfName n with
         | some t => allTags.contains t && nameOfTag t == some n
         | none => false))
